@@ -43,7 +43,13 @@ LEVEL_TEXT = ("Proof of the two safety clauses the re-exchange relies on, on the
               "_send_user_message may block for the whole exchange while the transport thread needs Channel.lock in its "
               "handlers to get through it; (2) Transport._send_user_message calls _send_message only with clear_to_send set and "
               "clear_to_send_lock held - the lock under which _send_kex_init / _negotiate_keys clear the event - sends at most "
-              "once, and releases the lock on every path.")
+              "once, and releases the lock on every path; (3) the half of 'the re-exchange completes' that is a per-call "
+              "property: when _send_user_message runs on the transport thread itself (a handler answering peer traffic that was in "
+              "flight, the keepalive) it never waits for the exchange - no Event.wait, no time-out - and the message is sent at once, "
+              "held back, or dropped because the connection is dead; _parse_newkeys sends every held-back message once, under the "
+              "lock, before clear_to_send is set, and leaves none behind. Two native scenarios over a latency-controlled link "
+              "(bounded, labelled) exercise the whole: a request wanting a reply in flight towards the side that started the "
+              "exchange, and a keepalive due while the peer's NEWKEYS is delayed.")
 LEVEL_NOTE = ("NOT decided: that a transport emits only transport-layer messages between its KEXINIT and its NEWKEYS for "
               "replies generated ON the transport thread (handlers such as _parse_global_request / _parse_channel_open call "
               "_send_message directly - a typestate obligation on about 20 call sites that the pinned tree does not satisfy "
